@@ -848,6 +848,109 @@ pub fn c18_scenario(name: &str, n: usize) -> Result<String, String> {
             drop(t);
             Ok(format!("dropped {}", len))
         }
+        // shape:<insertion order>:<lookups>:<teardown> - teardown of trees that are neither a pure chain nor balanced:
+        // a few lookups fold a chain into a spine whose nodes carry short side branches (e.g. descending insertion, then
+        // one lookup of the maximum: a right spine with a left leaf on every node)
+        "shape" => {
+            let mut t = build(style);
+            let n32 = n as u32;
+            let lookups = parts.get(2).cloned().unwrap_or("none");
+            let mut seen = 0usize;
+            let mut touch = |t: &mut SplayTree<u32, u32, fn(&u32, &u32) -> Ordering>, k: u32| {
+                if t.get(&k).is_some() {
+                    seen += 1;
+                }
+            };
+            match lookups {
+                "none" => {}
+                "min" => touch(&mut t, 0),
+                "max" => touch(&mut t, n32 - 1),
+                "mid" => touch(&mut t, n32 / 2),
+                "minmax" => {
+                    touch(&mut t, 0);
+                    touch(&mut t, n32 - 1);
+                }
+                "mix" => {
+                    for k in [n32 / 3, n32 - 1, 1, n32 / 2 + 1, n32 / 7, 0] {
+                        touch(&mut t, k);
+                    }
+                }
+                "nextprev" => {
+                    for k in [n32 - 2, 1, n32 / 2] {
+                        if t.next(&k).is_some() {
+                            seen += 1;
+                        }
+                        if t.prev(&k).is_some() {
+                            seen += 1;
+                        }
+                    }
+                }
+                "walks" => {
+                    // the non-restructuring walks down the spines
+                    if t.min().is_some() && t.max().is_some() {
+                        seen += 2;
+                    }
+                }
+                other => return Err(format!("unknown lookup pattern {}", other)),
+            }
+            let len = t.len();
+            let (mn, mx) = (t.min().cloned(), t.max().cloned());
+            if len != n || mn != Some(0) || mx != Some(n32 - 1) {
+                return Err(format!("len {} min {:?} max {:?} for {} keys", len, mn, mx, n));
+            }
+            let teardown = parts.get(3).cloned().unwrap_or("drop");
+            let done = match teardown {
+                "drop" => {
+                    drop(t);
+                    len
+                }
+                "clear" => {
+                    t.clear();
+                    if t.len() != 0 || t.min().is_some() {
+                        return Err("clear left elements behind".into());
+                    }
+                    len
+                }
+                "iter-partial" => {
+                    let mut it = t.into_iter();
+                    let a = it.next();
+                    let b = it.next_back();
+                    let c = it.next();
+                    drop(it);
+                    if a.map(|x| x.0) != Some(0) || b.map(|x| x.0) != Some(n32 - 1) || c.map(|x| x.0) != Some(1) {
+                        return Err("partial iteration yielded wrong elements".into());
+                    }
+                    3
+                }
+                "iter-fwd" => {
+                    let mut c = 0usize;
+                    let mut expect = 0u32;
+                    for (k, _) in t.into_iter() {
+                        if k != expect {
+                            return Err(format!("forward iteration yielded {} instead of {}", k, expect));
+                        }
+                        expect += 1;
+                        c += 1;
+                    }
+                    c
+                }
+                "iter-bwd" => {
+                    let mut it = t.into_iter();
+                    let mut c = 0usize;
+                    let mut expect = n32;
+                    while let Some((k, _)) = it.next_back() {
+                        expect -= 1;
+                        if k != expect {
+                            return Err(format!("backward iteration yielded {} instead of {}", k, expect));
+                        }
+                        c += 1;
+                    }
+                    c
+                }
+                other => return Err(format!("unknown teardown {}", other)),
+            };
+            Ok(format!("lookups hit {} teardown {} handled {}", seen, teardown, done))
+        }
         "iter-forward" => {
             let t = build(style);
             let mut c = 0u64;
@@ -936,4 +1039,16 @@ pub const C18_SCENARIOS: [&str; 22] = [
     "set-drop:asc",
     "set-drop:desc",
 ];
+/// insertion orders x lookup patterns x teardowns of the `shape` scenario
+pub fn c18_shape_scenarios() -> Vec<String> {
+    let mut v = Vec::new();
+    for style in ["asc", "desc", "zigzag", "random"] {
+        for lookups in ["none", "min", "max", "mid", "minmax", "mix", "nextprev", "walks"] {
+            for teardown in ["drop", "clear", "iter-partial", "iter-fwd", "iter-bwd"] {
+                v.push(format!("shape:{}:{}:{}", style, lookups, teardown));
+            }
+        }
+    }
+    v
+}
 pub const C18_BOOLEAN_SCENARIOS: [&str; 10] = ["comb-stair-intersection", "comb-stair-corner-difference", "comb-intersection", "comb-difference", "comb-intersection-f32", "comb-difference-f32", "comb-corner-intersection", "comb-corner-difference", "comb-corner-intersection-f32", "comb-corner-difference-f32"];
